@@ -639,6 +639,11 @@ class HoldUpSuite(PairedSuite):
                 # to the polling grid: the two differ by < 6 ms per hold-up, which the new line scales by |1 - i2/i1|
                 i1, i2 = Fraction(case["oracle"]["iv"]), blow_interval(case["oracle"]["speed"][1], n)
                 slack = k * Fraction(6, 1000) * abs(1 - i2 / i1)
+                if t >= Fraction(case["oracle"]["speed"][0]):
+                    # the tick that was asleep when the change arrived keeps its old target; when the tower was slowed
+                    # down the (punctual) human of that tick then rings after it, in BOTH runs: one more hold-up whose
+                    # rounding to the polling grid may differ by one step between the two runs
+                    slack += Fraction(1, 100)
             if not (max(d, 0) - TOL - slack <= shift <= max(d, 0) + k * Fraction(1, 100) + TOL + slack):
                 return (f"after hold-ups totalling {float(d):.3f}s, the strike of row {r} place {p} came "
                         f"{float(shift):.4f}s later than in the punctual run")
